@@ -1,4 +1,7 @@
 import HexProofs.Numeric.Simple
+import HexProofs.Numeric.TotalMoreAmorph
+import HexProofs.Numeric.TotalMoreHA
+import HexProofs.Numeric.TotalMoreLifeTrees
 import HexProofs.Numeric.AvgExtra
 import HexProofs.Numeric.Channel
 import HexProofs.Numeric.Extremes
@@ -902,16 +905,189 @@ whose input is a CANDLE FIELD: `atr_`, `rsi_`, `kc_`, `stdev_`, `bbands_`, `supe
 `stdevthres_…_never_raises` / `…_no_gaps`, `leaves_never_raise` / `leaves_no_gaps` (with the
 parameter guards stated there: some kinds need only period ≥ 1, MACD needs `fast ≤ slow` – the
 library's `_validate_fields` swaps them otherwise); per call, all guarded divisions / `sqrt`.
-OPEN: (a) inputs that are other indicators' readings (a chained indicator inside a `Hexital`: its
-input column has its own warm-up `None`s and can be 0); (b) ROC, where the statement is FALSE as
+CLOSED since: (c) the Amorph / pattern kinds – `amorph_never_raises` on every `MgrSpec`, for every float carrier, and
+`amorph_no_gaps` / `amorph_bar_/extreme_/range_no_gaps` (fifteen functions store a bool on every candle, highestbar / lowestbar an
+int, highest / lowest a number, value_range `None` exactly on candle 0); (d) HEIKIN-ASHI managers – three more `MgrSpec`
+instances (`spec_ha`, `spec_tfHA`, `spec_fillHA`: Heikin-Ashi alone, on a collapsing timeframe, with gap filling), so EVERY
+`X_never_raises M` / `X_no_gaps M` above holds on them unchanged (`neverRaises_ha/_tfHA/_fillHA`; converted candles of well-formed
+candles are well-formed: `ha_wellFormed`); (d) LIFESPAN managers – `never_raises_lifespan` for all 27 classes under C15's
+retention hypothesis (the trimmed run returns and is the untrimmed run minus the popped candles), `amorph_never_raises_lifespan`
+unconditionally; WITHOUT the retention hypothesis totality on a lifespan manager is FALSE for the kinds that index an explicit
+look-back: `lifespan_short_retention_raises` (SMA, ROC, WMA, VWMA, BBANDS, HMA raise `IndexError` on the append after a trim that
+keeps fewer candles than the look-back – replayed on the library; outside this property's quantifier, which has no lifespan, and
+outside C15's, which presupposes the retention).
+OPEN: (a) inputs that are other indicators' readings (a chained indicator inside a `Hexital`: its input column has its own
+warm-up `None`s and can be 0; for SMA / EMA / RMA / WMA / ROC / STDEV / BBANDS / STDEVTHRES / RSI over a late-starting `None`-then-
+numeric column the never-raises half follows from `C04_FULL_partial_holds` etc.); (b) ROC, where the statement is FALSE as
 soon as the reference input can be 0 – `roc_raises_on_zero` (e.g. `volume`, OBV, a MACD line) – and
-true for a field that is never 0 (`leaf_series_total`, row-major run only); (c) the Amorph / pattern
-kinds (C16); (d) managers with Heikin-Ashi conversion or a lifespan; (e) IEEE overflow / NaN. -/
+true for a field that is never 0 (`leaf_series_total`, row-major run only); (e) IEEE overflow / NaN; lifespan together with a
+collapsing timeframe for kinds other than Amorph. -/
 def C09_FULL : Prop :=
   ∀ (K : Type) [Field K] [LinearOrder K] [IsStrictOrderedRing K] [LawfulPyF K]
     (k : Kind K) (nm : String) (n : Nat) (init : List (Candle K)) (chunks : List (List (Candle K))),
     (∀ p ∈ periodsOf k, 2 ≤ p) → (∀ x ∈ (mkTop k nm n).allNames, IsKey x) → (mkTop k nm n).allNames.Nodup →
     (∀ c ∈ init ++ chunks.flatten, Plain c ∧ WellFormedCandle c) →
     ∃ snap : List (Candle K), candlesOf (runIndicator (mkTop k nm n) {} init chunks) = .ok snap
+
+/-! ### (c) Amorph: the twenty movement / pattern functions (every float carrier `F`) -/
+
+/-- **`Amorph` never raises**: every wrapped function and argument, every float carrier, every manager with an
+incremental spec – batch run and every append schedule (named columns: candle attributes) -/
+theorem amorph_never_raises {F : Type} [PyF F] (M : MgrSpec F) (a : Analysis) (nm : String) (n : Nat)
+    (hin : ∀ x ∈ a.names, AttrInput x) : NeverRaises M (mkTop (.amorph a : Kind F) nm n) :=
+  Hex.amorph_never_raises M a nm n hin
+
+/-- **`Amorph` has no gaps – the fifteen bool-valued functions**: a Python bool on EVERY candle, never `None` -/
+theorem amorph_no_gaps {F : Type} [PyF F] (M : MgrSpec F) (a : Analysis) (ha : a.isBool = true) (nm : String) (n : Nat)
+    (hk : IsKey nm) (hin : ∀ x ∈ a.names, AttrInput x) :
+    Always M (mkTop (.amorph a : Kind F) nm n) (fun raw out => out.length = raw.length ∧
+      ∀ j, j < out.length → ∃ b : Bool, own nm (out.getD j default) = .bool b) :=
+  Hex.amorph_bool_no_gaps M a ha nm n hk hin
+
+/-- … `highestbar` / `lowestbar`: a Python int on every candle -/
+theorem amorph_bar_no_gaps {F : Type} [PyF F] (M : MgrSpec F) (ind : String) (len : Int) (nm : String) (n : Nat)
+    (hk : IsKey nm) (hin : AttrInput ind) :
+    Always M (mkTop (.amorph (.highestbar ind len) : Kind F) nm n) (NoGaps (own nm) 0) ∧
+    Always M (mkTop (.amorph (.lowestbar ind len) : Kind F) nm n) (NoGaps (own nm) 0) :=
+  Hex.amorph_bar_no_gaps M ind len nm n hk hin
+
+/-- … `highest` / `lowest` (`length ≥ 1`) over a numeric candle field: a number on every candle -/
+theorem amorph_extreme_no_gaps {F : Type} [PyF F] (M : MgrSpec F) (ind : String) (len : Nat) (hlen : 1 ≤ len)
+    (fld : Candle F → Num F) (hattr : ∀ c : Candle F, c.attr ind = some (.num (fld c)))
+    (nm : String) (n : Nat) (hk : IsKey nm) (hin : AttrInput ind) :
+    Always M (mkTop (.amorph (.highest ind (len : Int)) : Kind F) nm n) (NoGaps (own nm) 0) ∧
+    Always M (mkTop (.amorph (.lowest ind (len : Int)) : Kind F) nm n) (NoGaps (own nm) 0) :=
+  Hex.amorph_extreme_no_gaps M ind len hlen fld hattr nm n hk hin
+
+/-- … `value_range` (`length ≥ 2`) over a numeric candle field: `None` on candle 0, a number from candle 1 on -/
+theorem amorph_range_no_gaps {F : Type} [PyF F] (M : MgrSpec F) (ind : String) (len : Nat) (hlen : 2 ≤ len)
+    (fld : Candle F → Num F) (hattr : ∀ c : Candle F, c.attr ind = some (.num (fld c)))
+    (nm : String) (n : Nat) (hk : IsKey nm) (hin : AttrInput ind) :
+    Always M (mkTop (.amorph (.valueRange ind (len : Int)) : Kind F) nm n) (NoGaps (own nm) 1) :=
+  Hex.amorph_range_no_gaps M ind len hlen fld hattr nm n hk hin
+
+/-! ### (d) managers with Heikin-Ashi conversion have an incremental spec: every `…_never_raises M` /
+`…_no_gaps M` above holds with `M := MgrSpec.ha K`, `MgrSpec.tfHA K tf htf`, `MgrSpec.fillHA K tf htf` -/
+
+/-- `NeverRaises` on base timeframe + Heikin-Ashi, unfolded -/
+theorem neverRaises_ha (ind : Ind K) :
+    NeverRaises (MgrSpec.ha K) ind ↔ ∀ (init : List (Candle K)) (chunks : List (List (Candle K))),
+      (∀ c ∈ init ++ chunks.flatten, Plain c ∧ c.tag = false) →
+      ∃ snap, candlesOf (runIndicator ind { ha := true } init chunks) = .ok snap := Iff.rfl
+
+/-- … on a collapsing timeframe + Heikin-Ashi -/
+theorem neverRaises_tfHA (tf : Int) (htf : 0 < tf) (ind : Ind K) :
+    NeverRaises (MgrSpec.tfHA K tf htf) ind ↔ ∀ (init : List (Candle K)) (chunks : List (List (Candle K))),
+      (RawTf (init ++ chunks.flatten) ∧ ∀ c ∈ init ++ chunks.flatten, c.tag = false) →
+      ∃ snap, candlesOf (runIndicator ind { tf := some tf, ha := true } init chunks) = .ok snap := Iff.rfl
+
+/-- … on a collapsing timeframe + gap filling + Heikin-Ashi -/
+theorem neverRaises_fillHA (tf : Int) (htf : 0 < tf) (ind : Ind K) :
+    NeverRaises (MgrSpec.fillHA K tf htf) ind ↔ ∀ (init : List (Candle K)) (chunks : List (List (Candle K))),
+      (RawTf (init ++ chunks.flatten) ∧ ∀ c ∈ init ++ chunks.flatten, c.tag = false) →
+      ∃ snap, candlesOf (runIndicator ind { tf := some tf, fill := true, ha := true } init chunks) = .ok snap :=
+  Iff.rfl
+
+/-- what the engine sees on these managers: the Heikin-Ashi fold of the (collapsed / gap-filled) raw candles;
+the indices of "no gaps" count these converted candles -/
+theorem spec_ha (s : List (Candle K)) : (MgrSpec.ha K).spec s = haSpec s := rfl
+theorem spec_tfHA (tf : Int) (htf : 0 < tf) (s : List (Candle K)) :
+    (MgrSpec.tfHA K tf htf).spec s = haSpec (resample tf s) := rfl
+theorem spec_fillHA (tf : Int) (htf : 0 < tf) (s : List (Candle K)) :
+    (MgrSpec.fillHA K tf htf).spec s = haSpec (fillSpec tf s) := rfl
+
+/-- **the converted candles of well-formed candles are well-formed** (exact field): `low ≤ open, close ≤ high`
+by construction, positivity because every Heikin-Ashi value is a mean of positive prices -/
+theorem ha_wellFormed (raw : List (Candle K)) (h : ∀ c ∈ raw, WellFormedCandle c) :
+    ∀ c ∈ haSpec raw, WellFormedCandle c := by
+  intro c hc
+  obtain ⟨h1, h2, h3, h4⟩ := wellFormed_haSpec raw (fun x hx => ⟨(h x hx).pos, (h x hx).lo, (h x hx).hi, (h x hx).vol⟩) c hc
+  exact ⟨h1, h2, h3, h4⟩
+
+/-- e.g. MACD and the leaf averages on timeframe + gap filling + Heikin-Ashi -/
+example (tf : Int) (htf : 0 < tf) (nm : String) (n pf ps pg : Nat) (hf : 2 ≤ pf) (hfs : pf ≤ ps) (hg : 1 ≤ pg)
+    (hn : MacdNames nm) : NeverRaises (MgrSpec.fillHA K tf htf)
+      (mkTop (.macd (pf : Int) (ps : Int) (pg : Int) "close" : Kind K) nm n) :=
+  macd_never_raises _ nm n pf ps pg "close" (·.c) hf hfs hg hn ⟨noDot_close, by decide⟩ (fun _ => rfl)
+example (tf : Int) (htf : 0 < tf) (p : Nat) (hp : 2 ≤ p) (nm : String) (n : Nat) (hk : IsKey nm) :
+    NeverRaises (MgrSpec.tfHA K tf htf) (mkTop (.sma p "close" : Kind K) nm n) :=
+  (leaves_never_raise (MgrSpec.tfHA K tf htf) p hp nm n hk).1
+
+/-! ### (d) managers with a lifespan: totality DEPENDS on what the trim retains -/
+
+/-- **`Amorph` never raises on a lifespan manager – unconditionally** (lifespan `≥ 0`, with or without
+Heikin-Ashi conversion; every stream, every schedule, whatever is retained; every float carrier) -/
+theorem amorph_never_raises_lifespan {F : Type} [PyF F] (a : Analysis) (nm : String) (n : Nat) (life : Int)
+    (hlife : 0 ≤ life) (init : List (Candle F)) (chunks : List (List (Candle F))) :
+    (∃ snap, candlesOf (runIndicator (mkTop (.amorph a : Kind F) nm n) { lifespan := some life } init chunks)
+      = .ok snap) ∧
+    (∃ snap, candlesOf (runIndicator (mkTop (.amorph a : Kind F) nm n) { ha := true, lifespan := some life }
+      init chunks) = .ok snap) :=
+  Hex.amorph_never_raises_lifespan a nm n life hlife init chunks
+
+/-- **the leaf averages never raise on a lifespan manager that retains `period` finished candles at every
+popping append** (C15's retention hypothesis) -/
+theorem leaves_never_raise_lifespan (p : Nat) (hp : 2 ≤ p) (nm : String) (n : Nat) (hk : IsKey nm)
+    (life : Int) (init : List (Candle K)) (chunks : List (List (Candle K)))
+    (hpl : ∀ c ∈ init ++ chunks.flatten, Plain c) (hinit : trimCandles (some life) init = .ok init)
+    (hret : RetainsFrom p life init init.length chunks) :
+    ∀ k ∈ ([.sma p "close", .ema p "close" (fl 2), .rma p "close", .wma p "close", .vwma p, .hla, .tr, .obv] :
+        List (Kind K)),
+      ∃ snap d, candlesOf (runIndicator (mkTop k nm n) { lifespan := some life } init chunks) = .ok (snap.drop d) ∧
+        candlesOf (runIndicator (mkTop k nm n) {} init chunks) = .ok snap :=
+  Numeric.leaves_never_raise_lifespan p hp nm n hk life init chunks hpl hinit hret
+
+/-- … HighestLowest, Donchian, Aroon -/
+theorem windows_never_raise_lifespan (p : Nat) (hp : 2 ≤ p) (nm : String) (n : Nat) (hk : IsKey nm) (hn : DcNames nm)
+    (life : Int) (init : List (Candle K)) (chunks : List (List (Candle K)))
+    (hpl : ∀ c ∈ init ++ chunks.flatten, Plain c) (hinit : trimCandles (some life) init = .ok init)
+    (hret : RetainsFrom p life init init.length chunks) :
+    ∀ k ∈ ([.hl p, .donchian p, .aroon p] : List (Kind K)),
+      ∃ snap d, candlesOf (runIndicator (mkTop k nm n) { lifespan := some life } init chunks) = .ok (snap.drop d) ∧
+        candlesOf (runIndicator (mkTop k nm n) {} init chunks) = .ok snap :=
+  Numeric.windows_never_raise_lifespan p hp nm n hk hn life init chunks hpl hinit hret
+
+/-- **every shipped class never raises on a lifespan manager that retains the tree's look-back** (`treeLook`, the
+look-back of C15: nothing popped at construction, `treeLook` finished candles from before the append retained at every
+append that pops): the run returns, with the candles of the untrimmed run minus the popped ones -/
+theorem never_raises_lifespan (k : Kind K) (nm : String) (n : Nat) (hc : CoveredTreeX nm k)
+    (hbase : NeverRaises (MgrSpec.base K) (mkTop k nm n))
+    (life : Int) (init : List (Candle K)) (chunks : List (List (Candle K)))
+    (hp : ∀ c ∈ init ++ chunks.flatten, Plain c) (hinit : trimCandles (some life) init = .ok init)
+    (hret : RetainsFrom (treeLook k nm n) life init init.length chunks) :
+    ∃ snap d, candlesOf (runIndicator (mkTop k nm n) { lifespan := some life } init chunks) = .ok (snap.drop d) ∧
+      candlesOf (runIndicator (mkTop k nm n) {} init chunks) = .ok snap :=
+  covered_never_raises_lifespan k nm n hc hbase life init chunks hp hinit hret
+
+/-- e.g. MACD, BBANDS, HMA (the latter two DO raise when less is retained, see below); likewise `atr_`, `rsi_`,
+`stdev_`, `kc_`, `stdevthres_`, `supertrend_`, `vwap_`, `stoch_`, `tsi_`, `adx_lifeTotal` -/
+theorem macd_never_raises_lifespan (nm : String) (n pf ps pg : Nat) (input : String) (fld : Candle K → Num K)
+    (hf : 2 ≤ pf) (hfs : pf ≤ ps) (hg : 1 ≤ pg) (hn : MacdNames nm) (hin : AttrInput input)
+    (hattr : ∀ c : Candle K, c.attr input = some (.num (fld c))) :
+    LifeTotal (mkTop (.macd (pf : Int) (ps : Int) (pg : Int) input : Kind K) nm n)
+      (treeLook (.macd (pf : Int) (ps : Int) (pg : Int) input : Kind K) nm n) :=
+  macd_lifeTotal nm n pf ps pg input fld hf hfs hg hn hin hattr
+theorem bbands_never_raises_lifespan (p : Nat) (hp : 2 ≤ p) (nm input : String) (fld : Candle K → Num K) (n : Nat)
+    (hk : IsKey nm) (hn : BbNames nm) (hin : AttrInput input)
+    (hattr : ∀ c : Candle K, c.attr input = some (.num (fld c))) :
+    LifeTotal (mkTop (.bbands (p : Int) input : Kind K) nm n) (treeLook (.bbands (p : Int) input : Kind K) nm n) :=
+  bbands_lifeTotal p hp nm input fld n hk hn hin hattr
+theorem hma_never_raises_lifespan (p : Nat) (hp : 2 ≤ p) (nm input : String) (fld : Candle K → Num K) (n : Nat)
+    (hn : HmaNames nm) (hin : AttrInput input) (hattr : ∀ c : Candle K, c.attr input = some (.num (fld c))) :
+    LifeTotal (mkTop (.hma (p : Int) input : Kind K) nm n) (treeLook (.hma (p : Int) input : Kind K) nm n) :=
+  hma_lifeTotal p hp nm input fld n hn hin hattr
+
+/-- **… and WITHOUT the retention hypothesis the statement is FALSE** (open known finding): with ONE finished
+candle retained, SMA / ROC / BBANDS (period 4) and WMA / VWMA / HMA (period 5) raise `IndexError` on the append,
+while their untrimmed twins return (toy carrier; replayed on the library) -/
+theorem lifespan_short_retention_raises :
+    lifeRun (.sma 4 "close") "SMA_4" 5 34 = .error .indexError ∧
+    lifeRun (.roc 4 "close") "ROC" 5 34 = .error .indexError ∧
+    lifeRun (.bbands 4 "close") "BBANDS_4" 5 34 = .error .indexError ∧
+    lifeRun (.wma 5 "close") "WMA_5" 6 35 = .error .indexError ∧
+    lifeRun (.vwma 5) "VWMA_5" 6 35 = .error .indexError ∧
+    lifeRun (.hma 5 "close") "HMA_5" 7 36 = .error .indexError :=
+  ⟨sma_raises_after_trim.1, roc_raises_after_trim.1, bbands_raises_after_trim.1, wma_raises_after_trim.1,
+   vwma_raises_after_trim.1, hma_raises_after_trim.1⟩
 
 end Hex.C09
